@@ -870,3 +870,46 @@ T("C14-t-seed-local", "C14", TREE, '''            self._random_seed = config.opt
             np.random.seed(self._random_seed)
             random.seed(self._random_seed)''', "seeding order exchanged")
 T("C14-t-lhs-seed-local", "C14", LHS, "        self.sampler = LatinHypercube(d=len(config.bounds), seed=deme_init_args.random_seed)", "        sampler_seed = deme_init_args.random_seed\n        self.sampler = LatinHypercube(d=len(config.bounds), seed=sampler_seed)", "seed through a local")
+
+# ----------------------------------------------------------------------------- C02
+M("C02-pinned-callback", "C02", LOC, "        ind = Individual(np.copy(intermediate_result.x), problem=self._problem)", "        ind = Individual(intermediate_result.x, problem=self._problem)", ["R02.7"], "pinned defect: scipy's work buffer stored uncopied")
+M("C02-crossover-any", "C02", DEPY, '''        new_genomes = np.where(chosen <= probability, mutated_population.genomes, population.genomes)
+        new_fitness = np.where(
+            np.all(new_genomes == population.genomes, axis=1),''', '''        new_genomes = np.where(chosen <= probability, mutated_population.genomes, population.genomes)
+        new_fitness = np.where(
+            np.any(new_genomes == population.genomes, axis=1),''', ["R02.1"], "fitness kept when any coordinate is unchanged")
+M("C02-crossover-isclose", "C02", DEPY, '''        new_genomes = np.where(chosen <= probability, mutated_population.genomes, population.genomes)
+        new_fitness = np.where(
+            np.all(new_genomes == population.genomes, axis=1),''', '''        new_genomes = np.where(chosen <= probability, mutated_population.genomes, population.genomes)
+        new_fitness = np.where(
+            np.all(np.isclose(new_genomes, population.genomes), axis=1),''', ["R02.1"], "approximately equal trial vectors keep the parent's fitness")
+M("C02-tournament-index", "C02", SEA, "        return Population(new_genomes, population_copy.fitnesses[winners], population_copy.problem)", "        return Population(new_genomes, population_copy.fitnesses[selected_indices], population_copy.problem)", ["R02.1"], "winners' genomes paired with other rows' fitness")
+M("C02-merge-order", "C02", POP, "        new_fitnesses = np.concatenate((self.fitnesses, other.fitnesses))", "        new_fitnesses = np.concatenate((other.fitnesses, self.fitnesses))", ["R02.1"], "merge concatenates fitness in the other order")
+M("C02-nan-reset-dropped", "C02", POP, "        self.genomes[change_mask] = new_genome[change_mask]\n        self.fitnesses[change_mask] = np.nan\n", "        self.genomes[change_mask] = new_genome[change_mask]\n", ["R02.2"], "changed rows keep their old fitness")
+M("C02-change-mask-all", "C02", POP, "        change_mask = np.any(new_genome != self.genomes, axis=1)", "        change_mask = np.all(new_genome != self.genomes, axis=1)", ["R02.2"], "rows changed in only some coordinates are not invalidated")
+M("C02-evaluate-wrong-rows", "C02", POP, "        fitness_values = [self.problem.evaluate(genome, *args, **kwargs) for genome in self.genomes[nan_mask]]", "        fitness_values = [self.problem.evaluate(genome, *args, **kwargs) for genome in self.genomes[: int(nan_mask.sum())]]", ["R02.2"], "NaN rows receive the objective values of other rows")
+M("C02-operator-mutates-arg", "C02", SEA, "        population_copy = population.copy()\n        new_genomes = np.random.uniform(", "        population_copy = population\n        new_genomes = np.random.uniform(", ["R02.3"], "UniformMutation mutates the population it was given")
+M("C02-pipeline-no-eval", "C02", SEA, '''                TournamentSelection(),
+                ArithmeticCrossover(probability=p_crossover, evaluate_fitness=False),
+                UniformMutation(bounds=problem.bounds, probability=p_mutation),''', '''                TournamentSelection(),
+                UniformMutation(bounds=problem.bounds, probability=p_mutation),
+                ArithmeticCrossover(probability=p_crossover, evaluate_fitness=False),''', ["R02.4"], "pipeline ends with the non-evaluating crossover")
+M("C02-de-no-evaluate", "C02", DEPY, "        trial_population = self._crossover(parent_population, trial_population, self._crossover_probability)\n        trial_population.evaluate()\n", "        trial_population = self._crossover(parent_population, trial_population, self._crossover_probability)\n", ["R02.4"], "DE compares NaN fitness")
+M("C02-filter-writes-fitness", "C02", FIL, '''        for deme in candidates.keys():
+            if len(candidates[deme].individuals) > self.limit:''', '''        for deme in candidates.keys():
+            for ind in candidates[deme].individuals:
+                ind.fitness = round(ind.fitness, 12)
+            if len(candidates[deme].individuals) > self.limit:''', ["R02.5"], "a filter rounds the fitness of recorded individuals")
+M("C02-genome-inplace", "C02", EA, "            seed_ind = Individual(x0, problem=self._problem)\n", "            x0 += 0.0\n            seed_ind = Individual(x0, problem=self._problem)\n            seed_ind.genome[0] = seed_ind.genome[0]\n", ["R02.5"], "genome item store")
+M("C02-history-element-replaced", "C02", CMA, '''        self._history.append(metaepoch_generations)
+
+        if self._lsc(self) or self._cma_es.stop():''', '''        self._history.append(metaepoch_generations)
+        metaepoch_generations.append(list(self.history[0]))
+
+        if self._lsc(self) or self._cma_es.stop():''', ["R02.8"], "recorded metaepoch list extended after recording")
+M("C02-sort-current", "C02", GEN, "individuals=[deme.best_current_individual]", "individuals=[deme.current_population.sort() or deme.best_current_individual]", ["R02.8"], "generator sorts the recorded generation in place")
+M("C02-evaluate-unguarded", "C02", IND, "        if self.fitness is None or np.isnan(self.fitness):\n            self.fitness = self.problem.evaluate(self.genome)", "        if self.fitness is None:\n            self.fitness = self.problem.evaluate(self.genome)", ["R02.6"], "NaN individuals are never evaluated")
+M("C02-local-fitness-negated", "C02", LOC, "        ind.fitness = self._sign * intermediate_result.fun", "        ind.fitness = intermediate_result.fun", ["R02.9"], "recorded iterates keep the sign-adapted value")
+T("C02-t-copy-method", "C02", POP, "        new_genomes = np.copy(self.genomes)\n        new_fitnesses = np.copy(self.fitnesses)", "        new_genomes = self.genomes.copy()\n        new_fitnesses = self.fitnesses.copy()", "ndarray.copy() instead of np.copy")
+T("C02-t-tournament-local", "C02", SEA, "        return Population(new_genomes, population_copy.fitnesses[winners], population_copy.problem)", "        new_fitnesses = population_copy.fitnesses[winners]\n        return Population(new_genomes, new_fitnesses, population_copy.problem)", "fitness through a local")
+T("C02-t-callback-array", "C02", LOC, "        ind = Individual(np.copy(intermediate_result.x), problem=self._problem)", "        ind = Individual(np.array(intermediate_result.x), problem=self._problem)", "np.array copy")
